@@ -7,6 +7,7 @@ import (
 	"net"
 	"sort"
 	"strings"
+	"sync"
 	"sync/atomic"
 	"testing"
 	"testing/synctest"
@@ -204,6 +205,107 @@ func c19Probe(r *rng, id string) {
 	m.Shutdown()
 }
 
+// c19SendErr: the transport refuses the direct ping (a local error, or one that blames the remote
+// side); nothing is acknowledged. The score may rise, never fall; a local refusal changes nothing.
+func c19SendErr(r *rng, id string) {
+	indirect := []int{0, 1, 3}[r.intn(3)]
+	awareMax := []int{8, 8, 4, 2}[r.intn(4)]
+	n, err := newC19(indirect, "off", awareMax)
+	if err != nil {
+		return
+	}
+	m := n.m
+	ml.VerifAliveNode(m, 1, "T", []byte{10, 0, 0, 1}, 7946, nil, []uint8{1, 5, 2, 0, 0, 0}, nil, false)
+	nrel := r.intn(4)
+	relPmax := map[string]int{}
+	for i := 0; i < nrel; i++ {
+		pm := []uint8{3, 5, 5}[r.intn(3)]
+		ml.VerifAliveNode(m, 1, fmt.Sprintf("R%d", i), []byte{10, 0, 1, byte(i + 1)}, 7946, nil, []uint8{1, pm, 2, 0, 0, 0}, nil, false)
+		relPmax[fmt.Sprintf("10.0.1.%d:7946", i+1)] = int(pm)
+	}
+	s0 := 0
+	for k := r.intn(4); k > 0; k-- {
+		s0 = ml.VerifApplyDelta(m, 1)
+	}
+	pre := r.chance(1, 3)
+	if pre {
+		// the target is already suspected: the ping travels in a compound message with the accusation
+		ml.VerifSuspectNode(m, 1, "T", "R9")
+	}
+	ml.VerifResetBroadcasts(m)
+	n.tr.take()
+	errK := []string{"local", "remote"}[r.intn(2)]
+	n.tr.failTo = "10.0.0.1:7946"
+	n.tr.failOp = errK == "remote"
+	done := make(chan struct{})
+	go func() { ml.VerifProbeNodeByName(m, "T"); close(done) }()
+	<-done
+	time.Sleep(6 * time.Second)
+	synctest.Wait()
+	snap := ml.VerifSnapshotState(m)
+	susp := 0
+	for _, nd := range snap.Nodes {
+		if nd.Name == "T" && nd.State != ml.StateAlive {
+			susp = 1
+		}
+	}
+	_ = susp
+	pk2, to2 := n.tr.takeTo()
+	expNacks := 0
+	for i, p := range pk2 {
+		if len(p) > 0 && p[0] == 1 && relPmax[to2[i]] >= 4 {
+			expNacks++
+		}
+	}
+	emit("C19 senderr id=%s err=%s pre=%d indirect=%d amax=%d s0=%d relays=%d suspected=%d score=%d handlers=%d expnacks=%d",
+		id, errK, b2i(pre), indirect, awareMax, s0, nrel, susp, snap.Score, len(snap.AckHandlers), expNacks)
+	m.Shutdown()
+}
+
+// c19Fresh: probes started at the same time on several goroutines (the probe ticker, Ping(), relay
+// duty) are registered under distinct sequence numbers.
+func c19Fresh(r *rng, id string) {
+	n, err := newC19(0, "off", 8)
+	if err != nil {
+		return
+	}
+	defer n.m.Shutdown()
+	workers := 8 + r.intn(9)
+	per := 20000
+	seen := make([][]uint32, workers)
+	var wg sync.WaitGroup
+	start := make(chan struct{})
+	for w := 0; w < workers; w++ {
+		wg.Add(1)
+		go func(w int) {
+			defer wg.Done()
+			out := make([]uint32, 0, per)
+			<-start
+			for i := 0; i < per; i++ {
+				out = append(out, ml.VerifNextSeqNo(n.m))
+			}
+			seen[w] = out
+		}(w)
+	}
+	close(start)
+	wg.Wait()
+	all := map[uint32]int{}
+	dups := 0
+	first := uint32(0)
+	for _, s := range seen {
+		for _, v := range s {
+			all[v]++
+			if all[v] == 2 {
+				if dups == 0 {
+					first = v
+				}
+				dups++
+			}
+		}
+	}
+	emit("C19 fresh id=%s workers=%d per=%d distinct=%d dups=%d first=%d", id, workers, per, len(all), dups, first)
+}
+
 func c19Relay(r *rng, id string) {
 	n, err := newC19(3, "off", 8)
 	if err != nil {
@@ -294,7 +396,6 @@ func c19Score(r *rng, id string) {
 	emit("C19 score id=%s amax=%d deltas=%s scores=%s", id, amax, strings.Join(ds, ","), strings.Join(ss, ","))
 	n.m.Shutdown()
 }
-
 
 // (d) the pending-acknowledgement table as a state machine: registrations (probe channels and relay
 // handlers), acks and nacks for pending, consumed, expired and foreign sequence numbers, and the clock;
@@ -396,6 +497,10 @@ func TestC19(t *testing.T) {
 	forCases(n, 191, "p", func(i int, r *rng, id string) {
 		synctest.Test(t, func(t *testing.T) { c19Probe(r, id) })
 	})
+	forCases(n/6, 195, "e", func(i int, r *rng, id string) {
+		synctest.Test(t, func(t *testing.T) { c19SendErr(r, id) })
+	})
+	forCases(n/300+3, 196, "f", func(i int, r *rng, id string) { c19Fresh(r, id) })
 	forCases(n/2, 192, "r", func(i int, r *rng, id string) {
 		synctest.Test(t, func(t *testing.T) { c19Relay(r, id) })
 	})
